@@ -44,7 +44,9 @@ CLAIMED = {
         text=('Lean theorems over the cursor state machine: for every call sequence after an execute the rows delivered so far '
               'are exactly the first `rownumber` rows of the result (in order, none twice, none skipped), rowcount stays the '
               'result size, exhaustion is signalled by None / [] exactly when all rows were delivered, a new execute resets, '
-              '-1/None before execute; Column is a 7-item sequence with Python index/slice laws. Tied to the code by exhaustive '
+              '-1/None before execute; executemany leaves the state of the last execute and nothing for no parameter set '
+              '(`C10_executemany`); several cursors do not influence each other (`C10_frame`); Column is a 7-item sequence with '
+              'Python index/slice laws. Tied to the code by exhaustive '
               'short call sequences and random long ones compared call by call (return value, rowcount, rownumber, description), '
               'with sqlite3 as a second opinion.'),
         design='DESIGN.md §5 C10',
